@@ -397,6 +397,10 @@ int main(int argc, char *argv[])
 		}
 		else if (!strcmp(line, "CO")) { for (long k = atol(a1); k > 0; k--) (void)slot_open(); }
 		else if (!strcmp(line, "CC")) { if (nheld) slot_close(held[(size_t)atol(a1) % nheld]); }
+		else if (!strcmp(line, "HC")) {
+			/* HC \t peer \t sizes \t request line: a listing request that arrives in pieces */
+			char *a3 = a2 ? strchr(a2, '\t') : NULL; if (a3) { *a3++ = 0; char rq[512]; snprintf(rq, sizeof(rq), "%s\r\n\r\n", a3); do_request_chunked("Http", (uid_t)strtoul(a1, 0, 10), rq, a2); }
+		}
 		else if (!strcmp(line, "H")) { char rq[512]; snprintf(rq, sizeof(rq), "%s\r\n\r\n", a2); do_request("Http", (uid_t)strtoul(a1, 0, 10), rq); }
 		else if (!strcmp(line, "T")) { the_loop.now += atof(a1); fprintf(o, "{\"e\":\"Tick\",\"now\":%.1f}\n", the_loop.now - T0); }
 		/* TJ n: the wall clock is n seconds further on than the monotonic clock accounts for (the clock was set, or the machine slept):
